@@ -4,6 +4,7 @@
   Checker code (trusted), not model: it only parses arguments, calls the
   model definitions the theorems are about, and prints canonical answers.
 -/
+import Model.TrailerSplit
 import Model
 
 open Prim
@@ -666,6 +667,26 @@ def driveC03 (args : List String) : String :=
       | some v => showBytes (natsToBytes v)
       | none => "error"
     | none => "bad-op"
+  | ["split", h, t] =>
+    -- h=<hexkey>:<id>,<id>;…  t=…  →  what the caller's header / trailer targets hold (keys sorted)
+    let parse (a : String) : Option TrailerSplit.MD :=
+      let body := (a.drop 2).toString
+      if body == "-" then some [] else
+      (body.splitOn ";").mapM fun e =>
+        match e.splitOn ":" with
+        | [k, vs] => match hexArg k with
+          | some kb => some (kb, (vs.splitOn ",").filterMap String.toNat?)
+          | none => none
+        | _ => none
+    let showM (m : TrailerSplit.MD) : String :=
+      if m.isEmpty then "-" else
+      let xs := m.map fun (k, vs) => toHex k ++ ":" ++ ",".intercalate (vs.map toString)
+      ";".intercalate (xs.toArray.qsort (· < ·)).toList
+    match parse h, parse t with
+    | some hm, some tm =>
+      let w := TrailerSplit.group (TrailerSplit.serverMerge hm tm)
+      "h=" ++ showM (TrailerSplit.clientHeaders w) ++ " t=" ++ showM (TrailerSplit.clientTrailers w)
+    | _, _ => "bad-op"
   | _ => "bad-op"
 
 
